@@ -22,11 +22,13 @@ Section H.
   Definition view (h : store) : SerialHugr.hugr Op Meta :=
     {| h_nodes := map (option_map vnode) (nodes h); h_root := root h; h_links := map vlink (q_links h) |}.
 
-  (* ---- commands: the mutators of model/Graph.v and `h[n].metadata = m` (the harness passes the whole
-     dictionary after an item assignment) ---- *)
+  (* ---- commands: the mutators of model/Graph.v, `h[n].metadata = m` (the harness passes the whole
+     dictionary after an item assignment) and insert_hugr of a HUGR given by its own history
+     Hugr(o) (root metadata m) + basic calls ---- *)
   Inductive hcmd :=
   | HB (c : bcmd Op Meta)
-  | HSetMeta (n : nid) (m : Meta).
+  | HSetMeta (n : nid) (m : Meta)
+  | HInsert (o : Op) (m : Meta) (src : list (bcmd Op Meta)) (parent : option nid).
 
   Definition set_meta_data (d : node_data Op Meta) (m : Meta) : node_data Op Meta :=
     {| nd_op := nd_op d; nd_parent := nd_parent d; nd_inps := nd_inps d; nd_outs := nd_outs d;
@@ -41,6 +43,7 @@ Section H.
     match c with
     | HB b => let '(h', _, r) := bstep h b in (h', r)
     | HSetMeta n m => set_meta h n m
+    | HInsert o m src parent => let '(h', _, r) := insert_hugr h (brun (init o m) src) parent in (h', r)
     end.
   Definition hrun (h : store) (cs : list hcmd) : store := fold_left (fun s c => fst (hstep s c)) cs h.
 End H.
